@@ -42,16 +42,16 @@ def _post_init(self):
     object.__setattr__(self, 'derived_is_task', labtech.is_task(self))
 
 
-def _mk(name, module, *, fields=('p',), extra=None, **opts):
+def _mk(name, module, *, fields=('p',), extra=None, bases=(), annotations=None, **opts):
     ns = {
-        '__annotations__': {f: Any for f in fields},
+        '__annotations__': {**{f: Any for f in fields}, **(annotations or {})},
         **{f: None for f in fields[1:]},
         'run': _run,
         '__module__': module,
         '__qualname__': name,
     }
     ns.update(extra or {})
-    return labtech.task(**opts)(type(name, (), ns))
+    return labtech.task(**opts)(type(name, tuple(bases), ns))
 
 
 Foo = _mk('Foo', __name__, fields=('p', 'q'))
@@ -85,6 +85,24 @@ class SubPickle(labtech.cache.PickleCache):
 
 SFoo = _mk('SFoo', __name__, cache=SubPickle())
 DFoo = _mk('DFoo', __name__, fields=('p', 'q'), extra={'q': 100})     # a parameter whose default is not None
+
+# a task type derived from another task type that adds a parameter of its own (p and q are inherited)
+SubFoo = _mk('SubFoo', __name__, fields=(), annotations={'r': Any}, extra={'r': 0}, bases=(Foo,))
+
+
+def _normalising_post_init(self):
+    # the documented post_init hook used to bring a parameter into a canonical form
+    if isinstance(self.p, str):
+        object.__setattr__(self, 'p', self.p.strip().lower())
+
+
+NFoo = _mk('NFoo', __name__, cache=None, extra={'post_init': _normalising_post_init})
+
+# class-level attributes that are not parameters (typing.ClassVar): a registry of an unsupported
+# type, a mutable list, a reference task
+import typing as _typing  # noqa: E402
+CVFoo = _mk('CVFoo', __name__, annotations={'REGISTRY': _typing.ClassVar[set], 'GRID': _typing.ClassVar[list], 'BASELINE': _typing.ClassVar[Any]},
+            extra={'REGISTRY': {1, 2}, 'GRID': [1, 2], 'BASELINE': Leaf(v='baseline')})
 
 # module-level types whose names are legal non-ASCII identifiers (every key of such a type must be usable)
 Modèle = _mk('Modèle', __name__, fields=('p', 'q'))
